@@ -262,33 +262,34 @@ func runC11(c *Ctx) {
 			} else {
 				start = []*ssa.BasicBlock{val.Blocks[0]}
 			}
-			seen := map[*ssa.BasicBlock]bool{a.Call.Block(): true}
+			type edge struct{ pred, b *ssa.BasicBlock }
+			seen := map[edge]bool{}
 			escape := ""
-			var walk func(b *ssa.BasicBlock)
-			walk = func(b *ssa.BasicBlock) {
-				if escape != "" {
+			var walk func(pred, b *ssa.BasicBlock)
+			walk = func(pred, b *ssa.BasicBlock) {
+				if escape != "" || b == a.Call.Block() {
 					return
 				}
 				if inner != nil && b == inner.header {
 					escape = "the next item is reached"
 					return
 				}
-				if seen[b] {
+				if seen[edge{pred, b}] {
 					return
 				}
-				seen[b] = true
+				seen[edge{pred, b}] = true
 				if ret, ok := b.Instrs[len(b.Instrs)-1].(*ssa.Return); ok {
 					if _, rej := rejectBlock(b); !rej {
 						escape = "an accepting return at " + gd.Pos(ret.Pos()) + " is reached"
 					}
 					return
 				}
-				for _, s := range b.Succs {
-					walk(s)
+				for _, s := range feasibleSuccs(pred, b) {
+					walk(b, s)
 				}
 			}
 			for _, s := range start {
-				walk(s)
+				walk(nil, s)
 			}
 			r.Check("C11.exhaustive", "telemetrygodev.validate/"+a.Sig()+" cannot be skipped", gd.Pos(a.Call.Pos()), escape == "",
 				"every item must pass this predicate before it is accepted; without evaluating it "+escape)
